@@ -81,8 +81,9 @@ def check(prop, tier='quick', repo=None, only=None, quiet=False, write=True):
         write_evidence(prop, tier, seed, results, repo, wall, errors=nerr, selfcheck=selfcheck)
     if not quiet:
         print('\n'.join(out))
-    for l in lines:
-        print(l)
+    if not quiet:
+        for l in lines:
+            print(l)
     code = 1 if nviol else (2 if nerr else 0)
     if not quiet:
         print('%s: %s  (%d discharged, %d known findings, %d violations, %d analysis errors, %.2fs)' % (
